@@ -21,8 +21,11 @@ Local Open Scope N_scope.
 
 Inductive item :=
 | IRow (ty : str) (n : name) (u : pyuuid) (cases : list name)
-    (* a row of type ty, main argument n (group name / flow name), obj_id u; for a router row:
-       the condition values of the rows that hang off it, in order *)
+    (* a row of type ty, main argument n (group name / flow name), obj_id u; cases: the group names
+       of the group tests on the edges that leave the row, in order — for a split_by_group row the
+       condition of every row that hangs off it; for a row of ANY other type (wait_for_response,
+       split_by_value, an action row, a no_op decision) the conditions written with
+       condition_type = has_group *)
 | IBlock (its : list item).
     (* insert_as_block: the rows of the instantiated template *)
 
@@ -45,14 +48,22 @@ Definition kind_of_shape (s : N) : option kind :=
 (* Group(name=name, uuid=obj_id or None) when the row type puts the obj_id on the object *)
 Definition carried (h : rhook) (u : pyuuid) : pyuuid := if h_carry h && truthy u then u else None.
 
-(* the node a row creates, reduced to its references *)
+(* a has_group condition on an edge: RowNodeGroup.add_exit / NoOpNodeGroup.add_exit write the test
+   as [None, group name] on the router the row has — or on the switch router they create behind an
+   action node — whatever its operand is.  The test type is probed (uuid_edge_group_test). *)
+Definition edge_case (c : name) : rcase := {| k_type := uuid_edge_group_test; k_uuid := None; k_name := c |}.
+
+(* the node(s) a row creates, reduced to the references in visiting order: the action of the row,
+   then the group tests of the edges that leave it *)
 Definition node_of (h : rhook) (n : name) (u : pyuuid) (cs : list name) : node :=
   match h_shape h with
-  | 1 => {| n_actions := [{| a_type := h_atype h; a_groups := [(n, carried h u)]; a_flow := None |}]; n_cases := [] |}
-  | 2 => {| n_actions := [{| a_type := h_atype h; a_groups := []; a_flow := Some (n, carried h u) |}]; n_cases := [] |}
+  | 1 => {| n_actions := [{| a_type := h_atype h; a_groups := [(n, carried h u)]; a_flow := None |}];
+            n_cases := map edge_case cs |}
+  | 2 => {| n_actions := [{| a_type := h_atype h; a_groups := []; a_flow := Some (n, carried h u) |}];
+            n_cases := map edge_case cs |}
   | 3 => {| n_actions := [];
             n_cases := map (fun c => {| k_type := h_atype h; k_uuid := None; k_name := c |}) cs |}
-  | _ => {| n_actions := []; n_cases := [] |}
+  | _ => {| n_actions := []; n_cases := map edge_case cs |}
   end.
 
 Section Parse.
